@@ -12,7 +12,7 @@ deriving Repr, DecidableEq
 inductive Fault | panic | oob | misaligned | fuel
 deriving Repr, DecidableEq
 inductive Res (α : Type) | ok (a : α) | err (e : Err) | fault (f : Fault)
-deriving Repr
+deriving Repr, DecidableEq
 
 namespace Res
 def bind {α β} : Res α → (α → Res β) → Res β
